@@ -2,13 +2,22 @@ package main
 
 // The SCION client (client.MeasureClockOffsetSCION with one client and one
 // empty-path route whose next hop is the scripted peer): the peer wraps the
-// crafted NTP payloads into SCION/UDP packets, with header mutations of its own
-// (wrong source / destination ISD-AS or host, bytes that are not SCION, cut-off
-// packets).  What gopacket/scionproto show of each datagram is recomputed here
-// with the parser configuration the client uses and handed to the model.
+// crafted NTP / NTS payloads into SCION/UDP packets, with header mutations of
+// its own (wrong source / destination ISD-AS or host, bytes that are not SCION,
+// cut-off packets) and, for the client with Auth.Enabled (DRKey, mock keys:
+// the process re-executes itself with USE_MOCK_KEYS=true) and for the plain
+// client alike, with an end-to-end extension carrying packet authenticator
+// options (SPAO) and timestamp options: genuine MAC, every kind of damage to
+// MAC / metadata / covered bytes, other SPI / algorithm / length, several
+// authenticators, none at all.  What gopacket/scionproto show of each datagram
+// (and whether the MAC of the authenticator the client looks at verifies under
+// the host-host key) is recomputed here with the parser configuration the
+// client uses and handed to the model.
 
 import (
+	"bytes"
 	"context"
+	"encoding/binary"
 	"fmt"
 	"log/slog"
 	"net"
@@ -21,9 +30,11 @@ import (
 	"github.com/scionproto/scion/pkg/slayers/path/empty"
 	"github.com/scionproto/scion/pkg/snet"
 	spath "github.com/scionproto/scion/pkg/snet/path"
+	"github.com/scionproto/scion/pkg/spao"
 
 	"example.com/scion-time/core/client"
 	"example.com/scion-time/net/ntp"
+	"example.com/scion-time/net/scion"
 	"example.com/scion-time/net/udp"
 
 	"verifharness/lib"
@@ -35,17 +46,57 @@ var (
 	otherIA  = addr.MustParseIA("1-ff00:0:113")
 )
 
+// the packet authenticator of the time service, written down from the
+// specification (DRKey host-host key, protocol 123; sender side = server):
+// not taken from net/scion/auth.go
+const (
+	spiServer  = uint32(1)<<17 | uint32(0)<<16 | 123
+	spiClient  = uint32(1)<<17 | uint32(1)<<16 | 123
+	optAuth    = 2   // slayers.OptTypeAuthenticator
+	optTS      = 253 // experimental: receive timestamp of the previous hop
+	authOptLen = 28  // 12 bytes of metadata, 16 bytes of MAC
+)
+
+// the host-host key under USE_MOCK_KEYS
+var mockKey = make([]byte, 16)
+
+type e2eOpt struct {
+	typ    uint8
+	data   []byte
+	mac    bool         // data is an authenticator: its last 16 bytes are set to the MAC under key
+	key    []byte       // nil: the mock key
+	post   func([]byte) // damage done to the option data after the MAC has been computed
+	align4 bool
+}
+
 type scionHdr struct {
 	srcIA, dstIA     addr.IA
 	srcHost, dstHost netip.Addr
 	srcPort, dstPort uint16
+	flow             uint32
+	tc               uint8
+	e2e              bool // an end-to-end extension (possibly without options)
+	opts             []e2eOpt
+	hbh              bool         // a hop-by-hop extension in front
+	postRaw          func([]byte) // damage done to the finished datagram
+}
+
+func authData(spi uint32, algo uint8, meta []byte) []byte {
+	d := make([]byte, authOptLen)
+	binary.BigEndian.PutUint32(d, spi)
+	d[4] = algo
+	copy(d[5:12], meta)
+	return d
 }
 
 func buildSCION(h scionHdr, payload []byte) []byte {
 	var scn slayers.SCION
 	scn.Version = 0
-	scn.FlowID = 1
-	scn.NextHdr = slayers.L4UDP
+	scn.FlowID = h.flow
+	if scn.FlowID == 0 {
+		scn.FlowID = 1
+	}
+	scn.TrafficClass = h.tc
 	scn.PathType = empty.PathType
 	scn.Path = empty.Path{}
 	scn.DstIA, scn.SrcIA = h.dstIA, h.srcIA
@@ -55,16 +106,83 @@ func buildSCION(h scionHdr, payload []byte) []byte {
 	if err := scn.SetDstAddr(addr.HostIP(h.dstHost)); err != nil {
 		panic(err)
 	}
+	so := gopacket.SerializeOptions{ComputeChecksums: true, FixLengths: true}
 	var u slayers.UDP
 	u.SrcPort, u.DstPort = h.srcPort, h.dstPort
 	u.SetNetworkLayerForChecksum(&scn)
-	sb := gopacket.NewSerializeBuffer()
-	err := gopacket.SerializeLayers(sb, gopacket.SerializeOptions{ComputeChecksums: true, FixLengths: true},
-		&scn, &u, gopacket.Payload(payload))
-	if err != nil {
+	// the bytes the MAC covers behind the headers: UDP header and payload
+	ub := gopacket.NewSerializeBuffer()
+	if err := gopacket.SerializeLayers(ub, so, &u, gopacket.Payload(payload)); err != nil {
 		panic(err)
 	}
-	return append([]byte(nil), sb.Bytes()...)
+	udpBytes := append([]byte(nil), ub.Bytes()...)
+
+	layers := []gopacket.SerializableLayer{&scn}
+	scn.NextHdr = slayers.L4UDP
+	var hbh slayers.HopByHopExtn
+	var e2e slayers.EndToEndExtn
+	if h.e2e || len(h.opts) > 0 {
+		e2e.NextHdr = slayers.L4UDP
+		aux := make([]byte, spao.MACBufferSize)
+		for _, o := range h.opts {
+			eo := &slayers.EndToEndOption{OptType: slayers.OptionType(o.typ), OptData: append([]byte(nil), o.data...)}
+			if o.align4 {
+				eo.OptAlign = [2]uint8{4, 2}
+			}
+			if o.mac && len(eo.OptData) == authOptLen {
+				key := o.key
+				if key == nil {
+					key = mockKey
+				}
+				_, err := spao.ComputeAuthCMAC(spao.MACInput{
+					Key:        key,
+					Header:     slayers.PacketAuthOption{EndToEndOption: eo},
+					ScionLayer: &scn,
+					PldType:    slayers.L4UDP,
+					Pld:        udpBytes,
+				}, aux, eo.OptData[12:authOptLen])
+				if err != nil {
+					panic(err)
+				}
+			}
+			if o.post != nil {
+				o.post(eo.OptData)
+			}
+			e2e.Options = append(e2e.Options, eo)
+		}
+		scn.NextHdr = slayers.End2EndClass
+	}
+	if h.hbh {
+		hbh.NextHdr = scn.NextHdr
+		hbh.Options = []*slayers.HopByHopOption{{OptType: slayers.OptTypePadN, OptData: make([]byte, 2)}}
+		scn.NextHdr = slayers.HopByHopClass
+		layers = append(layers, &hbh)
+	}
+	if h.e2e || len(h.opts) > 0 {
+		layers = append(layers, &e2e)
+	}
+	layers = append(layers, &u, gopacket.Payload(payload))
+	sb := gopacket.NewSerializeBuffer()
+	if err := gopacket.SerializeLayers(sb, so, layers...); err != nil {
+		panic(err)
+	}
+	dg := append([]byte(nil), sb.Bytes()...)
+	if h.postRaw != nil {
+		h.postRaw(dg)
+	}
+	return dg
+}
+
+// tsCmsg is the option data of a timestamp option as a forwarding end host
+// writes it: the socket control message SCM_TIMESTAMPNS of the receive stamp.
+func tsCmsg(t time.Time) []byte {
+	b := make([]byte, 32)
+	binary.LittleEndian.PutUint64(b, 32)      // cmsg_len
+	binary.LittleEndian.PutUint32(b[8:], 1)   // SOL_SOCKET
+	binary.LittleEndian.PutUint32(b[12:], 35) // SCM_TIMESTAMPNS
+	binary.LittleEndian.PutUint64(b[16:], uint64(t.Unix()))
+	binary.LittleEndian.PutUint64(b[24:], uint64(t.Nanosecond()))
+	return b
 }
 
 func hostNum(raw []byte) int64 {
@@ -79,14 +197,23 @@ func hostNum(raw []byte) int64 {
 	return addrNum(a)
 }
 
+type viewInfo struct {
+	e2e  bool
+	auth int // 0: no authenticator the client looks at, 1: MAC verifies, 2: it does not (or cannot be computed)
+	ts   int64
+}
+
+var noView = lib.L("0", "0", "2", "0", "0", "0", "-1", "-1", "0", "-1", "0")
+
 // scionView runs the parser of the client on a datagram and returns the
 // model's view of it and the SCION/UDP payload.
-func scionView(buf []byte) (view string, payload []byte) {
+func scionView(buf []byte) (view string, payload []byte, vi viewInfo) {
 	defer func() {
 		if recover() != nil {
-			view, payload = lib.L("0", "0", "2", "0", "0", "0", "-1", "-1", "0", "-1", "0"), nil
+			view, payload, vi = noView, nil, viewInfo{ts: -1}
 		}
 	}()
+	vi.ts = -1
 	var (
 		scn  slayers.SCION
 		hbh  slayers.HopByHopExtnSkipper
@@ -99,7 +226,7 @@ func scionView(buf []byte) (view string, payload []byte) {
 	decoded := make([]gopacket.LayerType, 4)
 	err := parser.DecodeLayers(buf, &decoded)
 	if err != nil {
-		return lib.L("0", "0", "2", "0", "0", "0", "-1", "-1", "0", "-1", "0"), nil
+		return noView, nil, vi
 	}
 	last := int64(2)
 	if n := len(decoded); n > 0 {
@@ -111,12 +238,35 @@ func scionView(buf []byte) (view string, payload []byte) {
 		}
 	}
 	lenOK := len(buf) >= int(u.Length)
-	e2ef := len(decoded) >= 3 && decoded[len(decoded)-2] == slayers.LayerTypeEndToEndExtn
+	vi.e2e = len(decoded) >= 3 && decoded[len(decoded)-2] == slayers.LayerTypeEndToEndExtn
 	if last == 0 {
 		payload = append([]byte(nil), u.Payload...)
 	}
+	if vi.e2e && last == 0 && lenOK {
+		if o, err := e2e.FindOption(slayers.OptionType(optTS)); err == nil {
+			if t, err := udp.TimestampFromOOBData(o.OptData); err == nil {
+				vi.ts = t.UnixNano()
+			}
+		}
+		if o, err := e2e.FindOption(slayers.OptionType(optAuth)); err == nil && len(o.OptData) == authOptLen {
+			if binary.BigEndian.Uint32(o.OptData) == spiServer && o.OptData[4] == 0 {
+				vi.auth = 2
+				mac := make([]byte, 16)
+				_, err := spao.ComputeAuthCMAC(spao.MACInput{
+					Key:        mockKey,
+					Header:     slayers.PacketAuthOption{EndToEndOption: o},
+					ScionLayer: &scn,
+					PldType:    slayers.L4UDP,
+					Pld:        buf[len(buf)-int(u.Length):],
+				}, make([]byte, spao.MACBufferSize), mac)
+				if err == nil && bytes.Equal(mac, o.OptData[12:]) {
+					vi.auth = 1
+				}
+			}
+		}
+	}
 	return lib.L("1", lib.I(int64(len(decoded))), lib.I(last), lib.Bool(lenOK), lib.U(uint64(scn.SrcIA)), lib.U(uint64(scn.DstIA)),
-		lib.I(hostNum(scn.RawSrcAddr)), lib.I(hostNum(scn.RawDstAddr)), lib.Bool(e2ef), "-1", "0"), payload
+		lib.I(hostNum(scn.RawSrcAddr)), lib.I(hostNum(scn.RawDstAddr)), lib.Bool(vi.e2e), lib.I(vi.ts), lib.I(int64(vi.auth))), payload, vi
 }
 
 func (w *worker) startSCION() {
@@ -130,6 +280,239 @@ func (w *worker) startSCION() {
 
 func (w *worker) scionPort() int { return w.connS.LocalAddr().(*net.UDPAddr).Port }
 
+// ---- recipes of the SCION layer ----
+//
+//	2        the payload recipe, sent with another source host
+//	30 31 32 wrong source ISD-AS / destination ISD-AS / destination host around payload recipe p1%2
+//	33       p1 random bytes instead of a SCION packet
+//	35       the genuine packet with its last p1 bytes cut off
+//	40+v     end-to-end extension variant v around the payload recipe (kind p1%100, p1 = p1/100)
+const (
+	vGenuine        = iota // authenticator of the server, MAC correct
+	vMacBit                // one MAC bit flipped
+	vMacRandom             // MAC replaced (random / zero)
+	vMetaAfter             // timestamp / sequence number bytes changed after the MAC was computed
+	vMetaBefore            // nonzero timestamp / sequence number, MAC computed over them: genuine
+	vPayloadByte           // a bit of the NTP payload flipped after the MAC was computed (the payload stays a valid response)
+	vUDPByte               // a bit of the SCION/UDP header flipped after the MAC was computed
+	vFlowByte              // a bit of the flow id flipped after the MAC was computed
+	vUncovered             // a bit outside the authenticated data flipped (traffic class bits 6,7): still genuine
+	vClientSPI             // authenticator with the SPI of the client direction, MAC correct for it
+	vOtherAlgo             // server SPI, another algorithm
+	vOtherSPI              // another SPI
+	vOtherLen              // option data of another length
+	vWrongKey              // MAC computed under another key
+	vIgnoredThenBad        // first authenticator: client SPI; second: server SPI with a wrong MAC
+	vGoodThenBad           // first: genuine; second: wrong MAC
+	vBadThenGood           // first: wrong MAC; second: genuine
+	vNoAuth                // end-to-end extension without an authenticator
+	vTSGenuine             // timestamp option (just after the arrival of the request) and genuine authenticator
+	vTSOnly                // timestamp option only
+	vTSPast                // timestamp option one second before the request, genuine authenticator
+	vHBH                   // hop-by-hop extension, end-to-end extension with genuine authenticator
+	vHBHOnly               // hop-by-hop extension only
+	vTSMalformed           // timestamp option that does not parse, genuine authenticator
+	vPathType              // genuine authenticator, path type byte set to an unregistered type
+	vMacBitTS              // timestamp option and an authenticator with one MAC bit flipped
+	vHBHBad                // hop-by-hop extension, end-to-end extension whose authenticator has one MAC bit flipped
+	vHBHTS                 // hop-by-hop extension, end-to-end extension with timestamp option and genuine authenticator
+	nVariants
+)
+
+var (
+	badVariants     = []int{vMacBit, vMacBit, vMacRandom, vMetaAfter, vPayloadByte, vPayloadByte, vUDPByte, vFlowByte, vWrongKey, vBadThenGood, vMacBitTS, vHBHBad}
+	ignoredVariants = []int{vClientSPI, vClientSPI, vOtherAlgo, vOtherSPI, vOtherLen, vIgnoredThenBad, vNoAuth, vTSOnly, vHBHOnly}
+	goodVariants    = []int{vGenuine, vGenuine, vMetaBefore, vUncovered, vGoodThenBad, vTSGenuine, vHBH, vTSMalformed, vHBHTS}
+	otherVariants   = []int{vTSPast, vPathType}
+)
+
+func flipMac(p2 int64) func([]byte) {
+	return func(d []byte) {
+		if len(d) == authOptLen {
+			d[12+int(uint64(p2>>3)%16)] ^= 1 << uint(p2%8)
+		}
+	}
+}
+
+// applyVariant adds the end-to-end extension of variant v to the header.
+func applyVariant(h *scionHdr, v int, p2 int64, arrival time.Time, idx int) {
+	r := lib.NewRng(uint64(v)*7919 + uint64(p2))
+	genuine := e2eOpt{typ: optAuth, data: authData(spiServer, 0, nil), mac: true, align4: true}
+	bad := genuine
+	bad.post = flipMac(p2)
+	// later than any reading the client may take for its transmit time (the kernel stamp, or the clock after
+	// a failed poll of the error queue)
+	tsNear := arrival.Add(10*time.Millisecond + time.Duration(idx)*time.Microsecond)
+	h.e2e = true
+	switch v {
+	case vGenuine:
+		h.opts = []e2eOpt{genuine}
+	case vMacBit:
+		h.opts = []e2eOpt{bad}
+	case vMacRandom:
+		o := genuine
+		if p2&1 == 0 {
+			o.post = func(d []byte) { copy(d[12:], r.Bytes(16)) }
+		} else {
+			o.post = func(d []byte) { copy(d[12:], make([]byte, 16)) }
+		}
+		h.opts = []e2eOpt{o}
+	case vMetaAfter:
+		o := genuine
+		o.post = func(d []byte) { d[5+int(uint64(p2>>3)%7)] ^= 1 << uint(p2%8) }
+		h.opts = []e2eOpt{o}
+	case vMetaBefore:
+		o := genuine
+		o.data = authData(spiServer, 0, r.Bytes(7))
+		h.opts = []e2eOpt{o}
+	case vPayloadByte:
+		h.opts = []e2eOpt{genuine}
+		h.postRaw = func(dg []byte) {
+			// root delay, root dispersion, reference id, reference time: bytes 4..23 of the NTP header,
+			// which the client does not look at; the header starts 48+ bytes before the end for plain NTP
+			_, pl, _ := scionView(dg)
+			if len(pl) >= 48 && len(dg) >= len(pl) {
+				dg[len(dg)-len(pl)+4+int(uint64(p2>>3)%20)] ^= 1 << uint(p2%8)
+			}
+		}
+	case vUDPByte:
+		h.opts = []e2eOpt{genuine}
+		h.postRaw = func(dg []byte) {
+			_, pl, _ := scionView(dg)
+			if pl != nil && len(dg) >= len(pl)+8 {
+				// source port (2 bytes) or checksum (2 bytes) of the SCION/UDP header
+				off := []int{0, 1, 6, 7}[int(uint64(p2>>3)%4)]
+				dg[len(dg)-len(pl)-8+off] ^= 1 << uint(p2%8)
+			}
+		}
+	case vFlowByte:
+		h.opts = []e2eOpt{genuine}
+		h.postRaw = func(dg []byte) { dg[3] ^= 1 << uint(p2%8) }
+	case vUncovered:
+		h.opts = []e2eOpt{genuine}
+		h.postRaw = func(dg []byte) { dg[0] ^= 4 << uint(p2%2) }
+	case vClientSPI:
+		o := genuine
+		o.data = authData(spiClient, 0, nil)
+		h.opts = []e2eOpt{o}
+	case vOtherAlgo:
+		o := genuine
+		o.data = authData(spiServer, byte(1+r.Intn(255)), nil)
+		o.mac = false
+		o.post = func(d []byte) { copy(d[12:], r.Bytes(16)) }
+		h.opts = []e2eOpt{o}
+	case vOtherSPI:
+		o := genuine
+		o.data = authData(lib.Pick(r, uint32(1), spiServer^(1<<uint(r.Intn(21))), spiServer+1, uint32(r.U64())&0x1fffff|1), 0, nil)
+		if binary.BigEndian.Uint32(o.data) == spiServer {
+			o.data = authData(1, 0, nil)
+		}
+		o.mac = false
+		o.post = func(d []byte) { copy(d[12:], r.Bytes(16)) }
+		h.opts = []e2eOpt{o}
+	case vOtherLen:
+		o := genuine
+		o.mac = false
+		o.data = append(authData(spiServer, 0, nil), r.Bytes(16)...)[:lib.Pick(r, 12, 24, 27, 29, 32, 44)]
+		h.opts = []e2eOpt{o}
+	case vWrongKey:
+		o := genuine
+		o.key = r.Bytes(16)
+		o.key[0] |= 1
+		h.opts = []e2eOpt{o}
+	case vIgnoredThenBad:
+		o := genuine
+		o.data = authData(spiClient, 0, nil)
+		h.opts = []e2eOpt{o, bad}
+	case vGoodThenBad:
+		h.opts = []e2eOpt{genuine, bad}
+	case vBadThenGood:
+		h.opts = []e2eOpt{bad, genuine}
+	case vNoAuth:
+		if p2&1 == 0 {
+			h.opts = []e2eOpt{{typ: 200, data: r.Bytes(6)}}
+		}
+	case vTSGenuine:
+		h.opts = []e2eOpt{genuine, {typ: optTS, data: tsCmsg(tsNear)}}
+	case vTSOnly:
+		h.opts = []e2eOpt{{typ: optTS, data: tsCmsg(tsNear)}}
+	case vTSPast:
+		h.opts = []e2eOpt{genuine, {typ: optTS, data: tsCmsg(arrival.Add(-time.Second - time.Duration(idx)*time.Microsecond))}}
+	case vHBH:
+		h.hbh = true
+		h.opts = []e2eOpt{genuine}
+	case vHBHOnly:
+		h.hbh = true
+		h.e2e = false
+	case vTSMalformed:
+		d := tsCmsg(tsNear)
+		switch p2 % 3 {
+		case 0:
+			d = d[:8]
+		case 1:
+			binary.LittleEndian.PutUint64(d, 40)
+		default:
+			binary.LittleEndian.PutUint32(d[12:], 36)
+		}
+		h.opts = []e2eOpt{genuine, {typ: optTS, data: d}}
+	case vPathType:
+		h.opts = []e2eOpt{genuine}
+		h.postRaw = func(dg []byte) { dg[8] = byte(5 + p2%200) }
+	case vMacBitTS:
+		h.opts = []e2eOpt{{typ: optTS, data: tsCmsg(tsNear)}, bad}
+	case vHBHBad:
+		h.hbh = true
+		h.opts = []e2eOpt{bad}
+	case vHBHTS:
+		h.hbh = true
+		h.opts = []e2eOpt{{typ: optTS, data: tsCmsg(tsNear)}, genuine}
+	default:
+		h.opts = []e2eOpt{genuine}
+	}
+}
+
+func wrapped(v int, inner recipe) recipe {
+	return recipe{kind: 40 + v, p1: int64(inner.kind) + 100*inner.p1, p2: inner.p2}
+}
+
+// scionDatagram turns one recipe into a datagram on the underlay.
+func (w *worker) scionDatagram(rc recipe, rq *reqRec, idx int, good scionHdr) (dg []byte, fromServer bool, inner recipe) {
+	h := good
+	fs := true
+	inner = rc
+	switch {
+	case rc.kind == 30:
+		h.srcIA, fs = otherIA, false
+		inner = recipe{kind: int(rc.p1 % 2), p2: rc.p2}
+	case rc.kind == 31:
+		h.dstIA, fs = otherIA, false
+		inner = recipe{kind: int(rc.p1 % 2), p2: rc.p2}
+	case rc.kind == 32:
+		h.dstHost, fs = w.addrB, false
+		inner = recipe{kind: int(rc.p1 % 2), p2: rc.p2}
+	case rc.kind == 33:
+		return lib.NewRng(uint64(rc.p2) + 99).Bytes(int(rc.p1)), false, inner
+	case rc.kind >= 40 && rc.kind < 40+nVariants:
+		inner = recipe{kind: int(rc.p1 % 100), p1: rc.p1 / 100, p2: rc.p2}
+		applyVariant(&h, rc.kind-40, rc.p2, rq.arrival, idx)
+	}
+	if inner.kind == 2 {
+		h.srcHost = w.addrB
+	}
+	pl, fromSrv := w.build(inner, rq, idx)
+	if !fromSrv {
+		fs = false
+	}
+	dg = buildSCION(h, pl)
+	if rc.kind == 35 {
+		cut := int(rc.p1)
+		if cut < len(dg) {
+			dg = dg[:len(dg)-cut]
+		}
+	}
+	return dg, fs, inner
+}
+
 func (w *worker) scionLoop() {
 	buf := make([]byte, 16384)
 	for {
@@ -139,77 +522,102 @@ func (w *worker) scionLoop() {
 		}
 		arrival := time.Now()
 		raw := append([]byte(nil), buf[:n]...)
-		var scn slayers.SCION
-		var u slayers.UDP
-		if scn.DecodeFromBytes(raw, gopacket.NilDecodeFeedback) != nil || scn.NextHdr != slayers.L4UDP ||
-			u.DecodeFromBytes(scn.Payload, gopacket.NilDecodeFeedback) != nil || len(u.Payload) < 48 {
+		var (
+			scn  slayers.SCION
+			hbh  slayers.HopByHopExtnSkipper
+			e2e  slayers.EndToEndExtn
+			u    slayers.UDP
+			scmp slayers.SCMP
+		)
+		parser := gopacket.NewDecodingLayerParser(slayers.LayerTypeSCION, &scn, &hbh, &e2e, &u, &scmp)
+		parser.IgnoreUnsupported = true
+		decoded := make([]gopacket.LayerType, 4)
+		if parser.DecodeLayers(raw, &decoded) != nil || len(decoded) < 2 ||
+			decoded[len(decoded)-1] != slayers.LayerTypeSCIONUDP || len(u.Payload) < 48 {
+			continue
+		}
+		srcHost, ok1 := netip.AddrFromSlice(scn.RawDstAddr)
+		dstHost, ok2 := netip.AddrFromSlice(scn.RawSrcAddr)
+		if !ok1 || !ok2 {
 			continue
 		}
 		rq := &reqRec{raw: append([]byte(nil), u.Payload...), arrival: arrival, addr: from}
 		var p ntp.Packet
 		_ = ntp.DecodePacket(&p, rq.raw)
 		rq.org, rq.rx, rq.tx = p.OriginTime, p.ReceiveTime, p.TransmitTime
-		good := scionHdr{srcIA: serverIA, dstIA: clientIA, srcHost: w.addrA, dstHost: w.addrA, srcPort: u.DstPort, dstPort: u.SrcPort}
+		rq.uid, _, _, _, _, _ = walk(rq.raw)
+		// the request of a client with Auth.Enabled carries the authenticator of the client direction
+		if len(decoded) >= 3 && decoded[len(decoded)-2] == slayers.LayerTypeEndToEndExtn {
+			if o, err := e2e.FindOption(slayers.OptionType(optAuth)); err == nil && len(o.OptData) == authOptLen &&
+				binary.BigEndian.Uint32(o.OptData) == spiClient {
+				rq.reqAuth = true
+			}
+		}
+		good := scionHdr{srcIA: scn.DstIA, dstIA: scn.SrcIA, srcHost: srcHost.Unmap(), dstHost: dstHost.Unmap(),
+			srcPort: u.DstPort, dstPort: u.SrcPort}
 		w.mu.Lock()
+		rq.s2c = w.s2c
+		if w.keSeq != w.keSeen {
+			rq.ke, w.keSeen = w.lastKE, w.keSeq
+		}
 		k := len(w.reqs)
 		if k < len(w.scripts) {
 			rq.recipes = w.scripts[k]
 			rq.timeout = w.timeouts[k]
 		}
+		var genuine []byte
 		for i, rc := range rq.recipes {
-			h := good
-			fs := true
-			var dg []byte
-			inner := rc
-			switch rc.kind {
-			case 30:
-				h.srcIA, fs = otherIA, false
-				inner = recipe{kind: int(rc.p1 % 2), p2: rc.p2}
-			case 31:
-				h.dstIA, fs = otherIA, false
-				inner = recipe{kind: int(rc.p1 % 2), p2: rc.p2}
-			case 32:
-				h.dstHost, fs = w.addrB, false
-				inner = recipe{kind: int(rc.p1 % 2), p2: rc.p2}
-			case 33:
-				dg = lib.NewRng(uint64(rc.p2) + 99).Bytes(int(rc.p1))
-				fs = false
-			case 2:
-				h.srcHost = w.addrB
+			dg, fs, inner := w.scionDatagram(rc, rq, i, good)
+			view, pl, vi := scionView(dg)
+			d := dgramRec{fromServer: fs, payload: pl, raw: dg, front: view, vi: vi}
+			if w.nts && pl != nil {
+				w.ntsFacts(&d, rq)
 			}
-			if dg == nil {
-				pl, fromServer := w.build(inner, rq, i)
-				if !fromServer {
-					fs = false
-				}
-				dg = buildSCION(h, pl)
-				if rc.kind == 35 {
-					cut := int(rc.p1)
-					if cut < len(dg) {
-						dg = dg[:len(dg)-cut]
-					}
-				}
+			if (inner.kind == 0 || inner.kind == 1) && genuine == nil && pl != nil && rc.kind != 35 {
+				genuine = pl
 			}
-			view, pl := scionView(dg)
-			rq.sent = append(rq.sent, dgramRec{fromServer: fs, payload: pl, raw: dg, front: view})
+			rq.sent = append(rq.sent, d)
 		}
 		if !rq.timeout {
 			for i := 0; i < 2; i++ {
 				dg := []byte{byte(0xe0 + i)}
-				view, pl := scionView(dg)
-				rq.sent = append(rq.sent, dgramRec{fromServer: false, payload: pl, raw: dg, front: view})
+				view, pl, vi := scionView(dg)
+				rq.sent = append(rq.sent, dgramRec{fromServer: false, payload: pl, raw: dg, front: view, vi: vi})
 			}
 		}
 		w.reqs = append(w.reqs, rq)
+		prevUID := rq.uid
 		w.mu.Unlock()
 		for _, d := range rq.sent {
 			_, _ = w.connS.WriteToUDPAddrPort(d.raw, from)
 		}
+		w.mu.Lock()
+		if genuine != nil {
+			w.prevPkt = genuine
+		}
+		w.prevUID = prevUID
+		w.mu.Unlock()
 	}
 }
 
-func genScriptSCION(r *lib.Rng) []recipe {
-	s := genScript(r, false)
+// ---- generators ----
+func payloadRecipeSCION(r *lib.Rng, nts bool) recipe {
+	for {
+		rc := genRecipe(r, nts)
+		// kinds that make no sense over SCION (receive buffer of 9188 bytes, one underlay socket)
+		if rc.kind != 9 && rc.kind != 21 {
+			return rc
+		}
+	}
+}
+
+func genScriptSCION(r *lib.Rng, nts bool) []recipe {
+	s := genScript(r, nts)
+	for i := range s {
+		if s[i].kind == 9 || s[i].kind == 21 {
+			s[i] = recipe{kind: 5, p1: 4}
+		}
+	}
 	for i := range s {
 		if i < len(s)-1 || r.Intn(6) == 0 {
 			switch r.Intn(5) {
@@ -224,18 +632,78 @@ func genScriptSCION(r *lib.Rng) []recipe {
 			}
 		}
 	}
-	// kinds that make no sense over SCION (receive buffer of 9188 bytes)
-	for i := range s {
-		if s[i].kind == 9 || s[i].kind == 21 {
-			s[i] = recipe{kind: 5, p1: 4}
+	return s
+}
+
+// a response the NTP / NTS part of the client accepts
+func genuineInner(r *lib.Rng) recipe {
+	if r.Intn(3) == 0 {
+		return recipe{kind: 1, p2: int64(2*r.Intn(1<<15) + 1)}
+	}
+	return recipe{kind: 0, p2: int64(r.Intn(1 << 16))}
+}
+
+// genScriptAuth: scripts around the packet authenticator.  spao: how often a
+// datagram gets an end-to-end extension at all.
+func genScriptAuth(r *lib.Rng, nts bool, spao int) []recipe {
+	pick := func(vs []int) int { return vs[r.Intn(len(vs))] }
+	bad := func() recipe { return wrapped(pick(badVariants), genuineInner(r)) }
+	good := func() recipe { return wrapped(pick(goodVariants), genuineInner(r)) }
+	ign := func() recipe { return wrapped(pick(ignoredVariants), genuineInner(r)) }
+	if r.Intn(100) < 45 {
+		// directed scripts: every datagram is a genuine response as far as NTP / NTS is concerned
+		switch r.Intn(12) {
+		case 0, 1:
+			return []recipe{bad(), good()} // wrong MAC skipped, genuine accepted
+		case 2, 3:
+			return []recipe{bad(), bad(), good()} // retry exhausted: error although the genuine response follows
+		case 4:
+			return []recipe{ign()} // authenticator the client does not look at
+		case 5:
+			return []recipe{genuineInner(r)} // no end-to-end extension at all
+		case 6:
+			return []recipe{bad(), genuineInner(r)} // wrong MAC, then the response without authenticator
+		case 7:
+			return []recipe{bad(), ign()}
+		case 8:
+			return []recipe{good()}
+		case 9:
+			return []recipe{wrapped(pick(otherVariants), genuineInner(r)), good()}
+		case 10:
+			return []recipe{ign(), bad(), good()} // accepted at once: the rest is never read
+		default:
+			return []recipe{bad()} // one wrong MAC, then only the two terminators
 		}
+	}
+	s := genScriptSCION(r, nts)
+	for i := range s {
+		if s[i].kind >= 30 || r.Intn(100) >= spao {
+			continue
+		}
+		var v int
+		last := i == len(s)-1
+		switch k := r.Intn(10); {
+		case last && k < 7:
+			v = pick(goodVariants)
+		case k < 4:
+			v = pick(badVariants)
+		case k < 6:
+			v = pick(ignoredVariants)
+		case k < 9:
+			v = pick(goodVariants)
+		default:
+			v = pick(otherVariants)
+		}
+		s[i] = wrapped(v, s[i])
 	}
 	return s
 }
 
-func genHistSCION(r *lib.Rng, long bool) histSpec {
+// genHistSCION: auth = the client has Auth.Enabled (DRKey), nts = Auth.NTSEnabled
+func genHistSCION(r *lib.Rng, long bool, auth, nts bool) histSpec {
 	h := genHist(r, long, false)
-	h.nts = false
+	h.nts, h.auth = nts, auth
+	h.sameIA = nts && r.Intn(3) == 0
 	for i := range h.ops {
 		if h.ops[i].kind == 1 {
 			continue
@@ -243,7 +711,15 @@ func genHistSCION(r *lib.Rng, long bool) histSpec {
 		// no silent-peer scripts here: MeasureClockOffsetSCION returns at the deadline while its
 		// client goroutine is still running, so the exchange's error is not observable in order
 		for j := range h.ops[i].scripts {
-			h.ops[i].scripts[j] = genScriptSCION(r)
+			switch {
+			case auth:
+				h.ops[i].scripts[j] = genScriptAuth(r, nts, 75)
+			case r.Intn(4) == 0:
+				// a client without key: authenticators are not looked at
+				h.ops[i].scripts[j] = genScriptAuth(r, nts, 40)
+			default:
+				h.ops[i].scripts[j] = genScriptSCION(r, nts)
+			}
 			h.ops[i].timeouts[j] = false
 		}
 	}
@@ -266,15 +742,70 @@ func genAllFailSCION(r *lib.Rng) histSpec {
 	return h
 }
 
+// allFailAuth: a client with Auth.Enabled is sent nothing but wrong MACs around
+// otherwise genuine responses: every exchange ends with the authenticator error
+func genAllFailAuth(r *lib.Rng) histSpec {
+	h := histSpec{imode: r.Bool(), deadline: r.Intn(4) != 0, auth: true}
+	op := opSpec{kind: 0}
+	n := 1
+	if h.imode {
+		n = 3
+	}
+	for j := 0; j < n; j++ {
+		var s []recipe
+		for k := 0; k < 2+r.Intn(2); k++ {
+			s = append(s, wrapped(badVariants[r.Intn(len(badVariants))], genuineInner(r)))
+		}
+		op.scripts = append(op.scripts, s)
+		op.timeouts = append(op.timeouts, false)
+	}
+	h.ops = []opSpec{op}
+	return h
+}
+
+func scionKind(h histSpec) string {
+	switch {
+	case h.auth && h.nts:
+		return "scion.ntsauth"
+	case h.auth:
+		return "scion.auth"
+	case h.nts:
+		return "scion.nts"
+	}
+	return "scion.hist"
+}
+
 func (w *worker) runHistSCION(h histSpec, kind string) {
 	rec := &recorder{}
 	callLog := slog.New(errHandler{rec})
 	quiet := slog.New(nullHandler{})
 	c := &client.SCIONClient{Log: quiet, InterleavedMode: h.imode, Filter: rec}
+	if h.auth {
+		c.Auth.Enabled = true
+		c.Auth.DRKeyFetcher = scion.NewFetcher(nil)
+	}
+	if h.nts {
+		c.Auth.NTSEnabled = true
+		c.Auth.NTSKEFetcher.Log = quiet
+		c.Auth.NTSKEFetcher.TLSConfig.InsecureSkipVerify = true
+		c.Auth.NTSKEFetcher.TLSConfig.ServerName = w.addrA.String()
+		c.Auth.NTSKEFetcher.TLSConfig.MinVersion = 0x0304
+		c.Auth.NTSKEFetcher.Port = fmt.Sprint(w.kePort)
+	}
 	w.mu.Lock()
-	w.nts = false
+	w.nts = h.nts
+	w.keAnnounce = w.scionPort()
 	w.prevPkt, w.prevUID = nil, nil
 	w.mu.Unlock()
+	defer func() {
+		w.mu.Lock()
+		w.keAnnounce = 0
+		w.mu.Unlock()
+	}()
+	srvIA := serverIA
+	if h.sameIA {
+		srvIA = clientIA
+	}
 	var calls []*callObs
 	for _, op := range h.ops {
 		switch op.kind {
@@ -302,8 +833,8 @@ func (w *worker) runHistSCION(h histSpec, kind string) {
 			ctx, cancel = context.WithTimeout(ctx, d)
 		}
 		la := udp.UDPAddr{IA: clientIA, Host: &net.UDPAddr{IP: net.IP(w.addrA.AsSlice())}}
-		ra := udp.UDPAddr{IA: serverIA, Host: &net.UDPAddr{IP: net.IP(w.addrA.AsSlice()), Port: 10123}}
-		ps := []snet.Path{spath.Path{Src: clientIA, Dst: serverIA, DataplanePath: spath.Empty{},
+		ra := udp.UDPAddr{IA: srvIA, Host: &net.UDPAddr{IP: net.IP(w.addrA.AsSlice()), Port: 10123}}
+		ps := []snet.Path{spath.Path{Src: clientIA, Dst: srvIA, DataplanePath: spath.Empty{},
 			NextHop: &net.UDPAddr{IP: net.IP(w.addrA.AsSlice()), Port: w.scionPort()}}}
 		done := make(chan struct{})
 		co := &callObs{spec: op}
@@ -338,9 +869,10 @@ func (w *worker) runHistSCION(h histSpec, kind string) {
 		rec.mu.Lock()
 		co.events = append([]xevent(nil), rec.events...)
 		rec.mu.Unlock()
+		if h.nts {
+			co.pool = c.Auth.NTSKEFetcher.VerifData().Cookie
+		}
 		calls = append(calls, co)
 	}
 	w.emit(h, calls, kind)
 }
-
-var _ = fmt.Sprint
